@@ -22,7 +22,11 @@
 
 using namespace rlbox;
 using W = __int128;
-using Sbx = rlbox_vm_sandbox<vm_abi_wasm32, 12>;
+#ifndef C08_ABI
+#  define C08_ABI vm_abi_wasm32
+#endif
+using Abi = C08_ABI;
+using Sbx = rlbox_vm_sandbox<Abi, 12>;
 using RS = rlbox_sandbox<Sbx>;
 static const long SIZE = 4096;
 static tr::Out out;
@@ -34,7 +38,7 @@ static unsigned long g_fn_idx = 0; // guest representation of the sandbox functi
 extern "C" {
 int gen_target(int);
 }
-static int32_t g_gen_target(int32_t x) { return x; }
+static typename Abi::T_IntType g_gen_target(typename Abi::T_IntType x) { return x; }
 
 template<typename T>
 struct GenInfo;
@@ -178,9 +182,12 @@ static W slot_value(const char* kind, int j, int round, int nslots)
   } else {
     hmin = -((W)1 << 63), hmax = ((W)1 << 63) - 1;
   }
-  // guest limits of long / ulong are the 32-bit ones
-  W gmax = k == "long" ? ((W)1 << 31) - 1 : k == "ulong" ? ((W)1 << 32) - 1 : hmax;
-  W gmin = k == "long" ? -((W)1 << 31) : hmin;
+  // guest limits of int / long (and their unsigned versions) under the ABI in use
+  int gbits = (k == "long" || k == "ulong") ? 8 * (int)sizeof(typename Abi::T_LongType)
+              : (k == "int" || k == "uint") ? 8 * (int)sizeof(typename Abi::T_IntType)
+                                            : 0;
+  W gmax = gbits == 0 ? hmax : (k == "long" || k == "int") ? ((W)1 << (gbits - 1)) - 1 : ((W)1 << gbits) - 1;
+  W gmin = gbits == 0 ? hmin : (k == "long" || k == "int") ? -((W)1 << (gbits - 1)) : 0;
   switch (which) {
     case 0:
       return gmax;
